@@ -196,9 +196,18 @@ func (h *fasthttpHandler) readReqMsg(ctx *fasthttp.RequestCtx) *dnsmsg.Msg {
 			return nil
 		}
 
+		bodyStream := ctx.Request.BodyStream()
+		if bodyStream == nil {
+			// No body at all, e.g. a POST without Content-Length and Transfer-Encoding.
+			h.logger.Warn().
+				Object("request", (*fasthttpReqLoggerObj)(ctx)).
+				Msg("missing request body")
+			ctx.SetStatusCode(fasthttp.StatusBadRequest)
+			return nil
+		}
 		buf := bufPool.Get()
 		defer bufPool.Release(buf)
-		_, err := buf.ReadFrom(io.LimitReader(ctx.Request.BodyStream(), 65535))
+		_, err := buf.ReadFrom(io.LimitReader(bodyStream, 65535))
 		if err != nil {
 			h.logger.Warn().
 				Object("request", (*fasthttpReqLoggerObj)(ctx)).
